@@ -7,6 +7,7 @@ ENTRY = dict(
         corr_files=["Corr/C16Corr.v"],
         theorems=["c16_frame", "c16_inplace_only_arg", "c16_fresh",
                   "c16_fresh_between_results", "c16_edits_leave_inputs", "c16_later_calls_partial",
+                  "c16_confined", "c16_results_share_only_arguments",
                   "c16_reach_sound", "c16_reach_complete",
                   "c16_refuted_F6", "c16_refuted_F10", "c16_refuted_F11", "c16_facts"],
         allowed_axioms=[],
@@ -19,7 +20,9 @@ ENTRY = dict(
                    "and for the repaired one); an in-place call writes only its circuit argument and, for decompose_qpd_instructions, that "
                    "circuit's own instruction objects; in the property-satisfying model every object reachable from a result is new, so "
                    "results share nothing with arguments or earlier results and arbitrary edits of a result leave all older objects as "
-                   "they were. The sharing classes F6, F10, F11 of the current tree are refuted on the model of the current "
+                   "they were; in EVERY mode (also the model of the current tree) whatever is reachable from a result is new or was reachable "
+                   "from the arguments of that call (c16_confined), so no other pre-existing state can leak into results. "
+                   "The sharing classes F6, F10, F11 of the current tree are refuted on the model of the current "
                    "behaviour. Closed under the global context. Partial: what Qiskit's containers do inside copy/compose/append is an "
                    "oracle (O-copy), observed and monitored, not proved; the model is compared with the real id()-level alias relation "
                    "on ~300 generated cases per quick run.",
